@@ -320,7 +320,14 @@ impl Cx {
         let hs: Vec<Hdr> = (0..n).map(|_| gen_headers(rng, true, b64)).collect();
         // all recipients must share the effective b64 (a missing protected header means true)
         let eff_b64 = hs[0].b64;
-        let hs: Vec<Hdr> = hs.into_iter().filter(|h| h.b64 == eff_b64).collect();
+        let mut hs: Vec<Hdr> = hs.into_iter().filter(|h| h.b64 == eff_b64).collect();
+        // sometimes append a recipient that disagrees on the effective b64 without spelling it out (no b64 parameter
+        // after a b64=false first recipient): the encoder should refuse it; if it does not, the ordinary checks on
+        // the produced token decide
+        let mixed = !eff_b64 && rng.chance(1, 3);
+        if mixed {
+          hs.push(gen_headers(rng, true, None));
+        }
         let transmitted: Vec<u8> = if eff_b64 { url_encode(&pl).into_bytes() } else { pl.clone() };
         let case = json!({"serialization":"general","recipients":hs.iter().map(|h| json!({"protected":h.prot_json,"unprotected":h.unprot_json})).collect::<Vec<_>>(),
           "payload_b64url":url_encode(&pl),"payload_class":pclass,"b64":b64,"detached":detached});
@@ -346,7 +353,9 @@ impl Cx {
           Err(p) => self.viol(&format!("encoder-panic@{}", p.file_only()), format!("{} at {}", p.msg, p.loc()), &case),
           Ok(Err(_)) => {
             self.rep.inc("encoder_refused");
-            if detached || eff_b64 || std::str::from_utf8(&pl).is_ok() {
+            if mixed {
+              self.rep.inc("encoder_refused_mixed_b64");
+            } else if detached || eff_b64 || std::str::from_utf8(&pl).is_ok() {
               self.rep.inc("encoder_refused_legal_input");
             }
           }
